@@ -34,27 +34,30 @@ Lemma gsr_index_in : forall a b i,
 Proof.
   intros a b i Ha Hb Hi. unfold get_slice_range, range_nth, range_len in *.
   rewrite guard_nonneg by lia.
-  rewrite (Z.ltb_irrefl i).
+  rewrite (Z.ltb_irrefl i). cbv zeta.
   destruct (Z.ltb_spec a b).
-  - rewrite s32_small by (unfold is_s32 in *; lia).
-    f_equal. apply Z.ltb_ge. lia.
-  - rewrite s32_small by (unfold is_s32 in *; lia).
-    f_equal. apply Z.ltb_ge. lia.
+  - destruct (Z.ltb_spec b (a + i)); [lia|].
+    rewrite s32_small by (unfold is_s32 in *; lia). reflexivity.
+  - destruct (Z.ltb_spec (a - i) b); [lia|].
+    rewrite s32_small by (unfold is_s32 in *; lia). reflexivity.
 Qed.
 
+(* an index at or beyond the length of the range is refused, whatever the magnitudes: the bound
+   is tested on the exact sum (fix acecad0); res_from/res_to keep the caller's preset 0 *)
 Lemma gsr_index_out : forall a b i,
-  is_s32 a -> is_s32 b -> range_len a b <= i -> is_s32 (a + i) -> is_s32 (a - i) ->
-  snd (get_slice_range a b i i) = true.
+  range_len a b <= i -> get_slice_range a b i i = (0, 0, true).
 Proof.
-  intros a b i Ha Hb Hi H1 H2. unfold get_slice_range, range_len in *.
+  intros a b i Hi. unfold get_slice_range, range_len in *.
   rewrite guard_nonneg by lia.
-  rewrite (Z.ltb_irrefl i).
-  destruct (Z.ltb_spec a b); cbn [snd]; rewrite s32_small by assumption; apply Z.ltb_lt; lia.
+  rewrite (Z.ltb_irrefl i). cbv zeta.
+  destruct (Z.ltb_spec a b).
+  - destruct (Z.ltb_spec b (a + i)); [reflexivity|lia].
+  - destruct (Z.ltb_spec (a - i) b); [reflexivity|lia].
 Qed.
 
 (* ---- [a..b][c..d] ---------------------------------------------------------------------------- *)
 Theorem slice_range_denotes : forall a b c d rf rt oob,
-  is_s32 a -> is_s32 b -> (0 <= c -> 0 <= d -> compose_ok a c d) ->
+  is_s32 a -> is_s32 b ->
   get_slice_range a b c d = (rf, rt, oob) ->
   (* refused exactly when an inner bound is not an index of [a..b] (negative or too large) *)
   (oob = false <-> 0 <= c < range_len a b /\ 0 <= d < range_len a b) /\
@@ -66,21 +69,35 @@ Theorem slice_range_denotes : forall a b c d rf rt oob,
        0 <= range_nth c d k < range_len a b /\
        range_lo a b <= range_nth rf rt k <= range_hi a b).
 Proof.
-  intros a b c d rf rt oob Ha Hb Hcomp E.
+  intros a b c d rf rt oob Ha Hb E.
   unfold get_slice_range in E.
   destruct (Z_lt_le_dec c 0) as [Hc|Hc]; [|destruct (Z_lt_le_dec d 0) as [Hd|Hd]].
   1,2: rewrite guard_neg in E by lia; inversion E; subst;
        (split; [split; [discriminate | lia] | discriminate]).
-  rewrite guard_nonneg in E by assumption.
-  destruct (Hcomp Hc Hd) as [H1 [H2 [H3 H4]]].
+  rewrite guard_nonneg in E by assumption. cbv zeta in E.
   destruct (Z.ltb_spec a b); destruct (Z.ltb_spec c d);
-    rewrite !s32_small in E by assumption; inversion E; subst; clear E;
-    unfold range_len, range_nth, range_lo, range_hi.
-  all: split;
-    [ split;
-      [ intros Hoob; apply Z.ltb_ge in Hoob; lia
-      | intros Hw; apply Z.ltb_ge; lia ]
-    | intros Hoob; apply Z.ltb_ge in Hoob; split; [lia|]; intros k Hk; zb; lia ].
+    match type of E with (if ?x <? ?y then _ else _) = _ => destruct (Z.ltb_spec x y) end.
+  (* the four refusals *)
+  1,3,5,7: inversion E; subst; clear E;
+    (split; [split; [discriminate | unfold range_len; lia] | discriminate]).
+  (* the four accepted compositions: both results lie between a and b, the narrowing is exact *)
+  all: rewrite !s32_small in E by (unfold is_s32 in *; lia); inversion E; subst; clear E;
+    unfold range_len, range_nth, range_lo, range_hi;
+    (split; [split; [intros _; lia | reflexivity] | intros _; split; [lia|]; intros k Hk; zb; lia]).
+Qed.
+
+(* what an accepted composition writes is an int (the narrowing (int)from changes nothing) and
+   what a refused one leaves is the caller's preset 0 *)
+Lemma slice_range_results : forall a b c d rf rt oob,
+  get_slice_range a b c d = (rf, rt, oob) ->
+  is_s32 rf /\ is_s32 rt /\ (oob = true -> rf = 0 /\ rt = 0).
+Proof.
+  intros a b c d rf rt oob E. unfold get_slice_range in E. cbv zeta in E.
+  assert (Z0 : is_s32 0) by (unfold is_s32, two31; lia).
+  repeat match type of E with
+         | (if ?x then _ else _) = _ => destruct x
+         end; inversion E; subst;
+    (repeat split; try apply s32_range; try exact Z0; try reflexivity; discriminate).
 Qed.
 
 (* negative inner bounds are refused before anything is computed (fix bf51841) *)
@@ -88,15 +105,23 @@ Lemma slice_range_negative_inner : forall a b c d, c < 0 \/ d < 0 ->
   get_slice_range a b c d = (0, 0, true).
 Proof. intros a b c d H. unfold get_slice_range. now rewrite guard_neg. Qed.
 
-(* an index far beyond the end of a range near INT_MAX wraps and is accepted *)
-Theorem slice_range_overflow_refuted :
-  exists a b i rf rt,
-    is_s32 a /\ is_s32 b /\ is_s32 i /\ 0 <= i /\ ~ (i < range_len a b) /\
-    get_slice_range a b i i = (rf, rt, false).
-Proof.
-  exists 2147483640, 2147483647, 20, (-2147483636), (-2147483636).
-  unfold is_s32, two31. repeat split; try lia; try (vm_compute; congruence).
-Qed.
+(* regression (finding range_deref:int-overflow, fixed by acecad0): the former witnesses of the
+   wrap -- an index far beyond the end of an ascending range near INT_MAX, of a descending
+   range near INT_MIN, and the extreme INT_MIN - INT_MAX, which wrapped to +1 -- are refused *)
+Theorem slice_range_overflow_regression :
+  get_slice_range 2147483640 2147483647 20 20 = (0, 0, true) /\
+  get_slice_range (-2147483640) (-2147483647) 20 20 = (0, 0, true) /\
+  get_slice_range (-2147483648) (-2147483648) 2147483647 2147483647 = (0, 0, true) /\
+  get_slice_range 2147483647 2147483647 2147483647 2147483647 = (0, 0, true) /\
+  (* two-bound compositions: [INT_MAX-7..INT_MAX][3..20], [..][20..3], and descending *)
+  get_slice_range 2147483640 2147483647 3 20 = (0, 0, true) /\
+  get_slice_range 2147483640 2147483647 20 3 = (0, 0, true) /\
+  get_slice_range (-2147483640) (-2147483647) 3 20 = (0, 0, true) /\
+  get_slice_range (-2147483640) (-2147483647) 20 3 = (0, 0, true) /\
+  (* the last valid index next to the limit is still accepted and exact *)
+  get_slice_range 2147483640 2147483647 7 7 = (2147483647, 2147483647, false) /\
+  get_slice_range (-2147483641) (-2147483648) 7 7 = (-2147483648, -2147483648, false).
+Proof. repeat split; vm_compute; reflexivity. Qed.
 
 (* ---- SLICE_RANGE / SLICE_SLICE: all dimensions ------------------------------------------------ *)
 Lemma range_nth_within : forall c d k, 0 <= c -> 0 <= d -> 0 <= k < range_len c d ->
@@ -104,7 +129,7 @@ Lemma range_nth_within : forall c d k, 0 <= c -> 0 <= d -> 0 <= k < range_len c 
 Proof. intros c d k Hc Hd Hk. unfold range_nth, range_len in *. zb; lia. Qed.
 
 Theorem compose_ranges_denotes : forall r1 r2,
-  range_s32 r1 -> length r1 = length r2 -> inner_ok r1 r2 ->
+  range_s32 r1 -> length r1 = length r2 ->
   (inner_within r1 r2 ->
      exists r, compose_ranges r1 r2 = Ok r /\ range_s32 r /\ length r = length r2 /\
        forall idx, idx_in_ranges r2 idx ->
@@ -112,22 +137,19 @@ Theorem compose_ranges_denotes : forall r1 r2,
          ranges_nth r idx = ranges_nth r1 (ranges_nth r2 idx)) /\
   (~ inner_within r1 r2 -> compose_ranges r1 r2 = Exc (IndexOob (-1))).
 Proof.
-  induction r1 as [|[a b] t1 IH]; destruct r2 as [|[c d] t2]; intros Hs Hlen Hok; try discriminate.
+  induction r1 as [|[a b] t1 IH]; destruct r2 as [|[c d] t2]; intros Hs Hlen; try discriminate.
   - split.
     + intros _. exists []. cbn. repeat split; try constructor.
       all: destruct idx; cbn in *; tauto.
     + intros H. exfalso. apply H. exact I.
   - inversion Hs as [|? ? [Ha Hb] Hs']; subst. cbn [fst snd] in *.
-    cbn [inner_ok] in Hok. destruct Hok as [Hcomp Hok'].
     cbn in Hlen. assert (Hlen' : length t1 = length t2) by lia.
-    specialize (IH t2 Hs' Hlen' Hok'). destruct IH as [IH1 IH2].
+    specialize (IH t2 Hs' Hlen'). destruct IH as [IH1 IH2].
     cbn [compose_ranges].
     destruct (get_slice_range a b c d) as [[rf rt] oob] eqn:E.
-    destruct (slice_range_denotes a b c d rf rt oob Ha Hb Hcomp E) as [D1 D2].
+    destruct (slice_range_denotes a b c d rf rt oob Ha Hb E) as [D1 D2].
     assert (Hrs : is_s32 rf /\ is_s32 rt).
-    { unfold get_slice_range in E.
-      destruct ((c <? 0) || (d <? 0)); [inversion E; unfold is_s32, two31; lia|].
-      destruct (a <? b); destruct (c <? d); inversion E; split; apply s32_range. }
+    { destruct (slice_range_results a b c d rf rt oob E) as [R1 [R2 _]]. split; assumption. }
     split.
     + intros [W1 [W2 W3]].
       assert (Hoob : oob = false) by (apply D1; tauto). subst oob.
@@ -163,47 +185,44 @@ Proof.
 Qed.
 
 Lemma range_deref_loop_out : forall r idx d,
-  range_s32 r -> length idx = length r -> no_wrap r idx -> ~ idx_in_ranges r idx ->
+  length idx = length r -> ~ idx_in_ranges r idx ->
   exists d', range_deref_loop d r idx = Exc (IndexOob d').
 Proof.
-  induction r as [|[a b] tr IH]; destruct idx as [|i ti]; cbn [length]; intros d Hs Hlen Hw Hnot;
+  induction r as [|[a b] tr IH]; destruct idx as [|i ti]; cbn [length]; intros d Hlen Hnot;
     try discriminate.
   - exfalso. apply Hnot. exact I.
-  - inversion Hs as [|? ? [Ha Hb] Hs']; subst. cbn [fst snd] in *.
-    cbn [no_wrap] in Hw. destruct Hw as [W1 [W2 Hw]].
-    cbn [range_deref_loop].
+  - cbn [range_deref_loop].
     destruct (Z.ltb_spec i 0); [eauto|].
     destruct (Z_lt_le_dec i (range_len a b)) as [Hin|Hout].
-    + rewrite gsr_index_in by (try assumption; lia).
-      destruct (IH ti (d + 1)) as [d' Hd']; try assumption; try lia.
+    + destruct (get_slice_range a b i i) as [[rf rt] [|]]; [eauto|].
+      destruct (IH ti (d + 1)) as [d' Hd']; try lia.
       { intros Hrest. apply Hnot. cbn. split; [lia|exact Hrest]. }
       rewrite Hd'. eauto.
-    + pose proof (gsr_index_out a b i Ha Hb Hout W1 W2) as Ho.
-      destruct (get_slice_range a b i i) as [[rf rt] oob]. cbn in Ho. subst oob. eauto.
+    + rewrite gsr_index_out by assumption. eauto.
 Qed.
 
 Theorem range_deref_spec : forall r idx,
   range_s32 r -> Forall is_s32 idx -> length idx = length r ->
   (* every index inside its range: the selected values are the denoted positions *)
   (idx_in_ranges r idx -> range_deref (Some r) idx = Ok (ranges_nth r idx)) /\
-  (* a negative or too large index: index_out_of_bounds (provided from +- index fits an int) *)
-  (~ idx_in_ranges r idx -> no_wrap r idx -> exists d, range_deref (Some r) idx = Exc (IndexOob d)).
+  (* a negative or too large index, of whatever magnitude: index_out_of_bounds *)
+  (~ idx_in_ranges r idx -> exists d, range_deref (Some r) idx = Exc (IndexOob d)).
 Proof.
   intros r idx Hs Hi Hlen. unfold range_deref. split.
   - intros H. apply range_deref_loop_in; assumption.
-  - intros Hnot Hw. apply range_deref_loop_out; assumption.
+  - intros Hnot. apply range_deref_loop_out; assumption.
 Qed.
 
-Theorem range_deref_overflow_refuted :
-  exists r idx v, range_s32 r /\ Forall is_s32 idx /\ ~ idx_in_ranges r idx /\
-                  range_deref (Some r) idx = Ok v.
-Proof.
-  exists [(2147483640, 2147483647)], [20], [-2147483636].
-  split. { repeat constructor; unfold is_s32, two31; cbn; lia. }
-  split. { repeat constructor; unfold is_s32, two31; lia. }
-  split. { cbn. unfold range_len. lia. }
-  vm_compute. reflexivity.
-Qed.
+(* regression (finding range_deref:int-overflow): [2147483640..2147483647][20] returned
+   -2147483636, [-2147483640..-2147483647][20] returned 2147483636 *)
+Theorem range_deref_overflow_regression :
+  range_deref (Some [(2147483640, 2147483647)]) [20] = Exc (IndexOob 0) /\
+  range_deref (Some [(-2147483640, -2147483647)]) [20] = Exc (IndexOob 0) /\
+  range_deref (Some [(-2147483648, -2147483648)]) [2147483647] = Exc (IndexOob 0) /\
+  range_deref (Some [(1, 5); (2147483640, 2147483647)]) [2; 2147483647] = Exc (IndexOob 1) /\
+  range_deref (Some [(2147483640, 2147483647)]) [7] = Ok [2147483647] /\
+  range_deref (Some [(-2147483641, -2147483648)]) [7] = Ok [-2147483648].
+Proof. repeat split; vm_compute; reflexivity. Qed.
 
 (* ---- SLICE_DEREF ------------------------------------------------------------------------------ *)
 (* object_arr_dim_addr applied to positions converted to unsigned *)
@@ -224,24 +243,22 @@ Proof.
 Qed.
 
 Lemma slice_positions_out : forall r idx d,
-  range_s32 r -> Forall is_s32 idx -> Forall (fun i => 0 <= i) idx -> length idx = length r ->
-  no_wrap r idx -> ~ idx_in_ranges r idx ->
+  Forall is_s32 idx -> length idx = length r -> ~ idx_in_ranges r idx ->
   exists d', slice_positions d r idx = Exc (IndexOob d').
 Proof.
   induction r as [|[a b] tr IH]; destruct idx as [|i ti]; cbn [length];
-    intros d Hs Hi Hnn Hlen Hw Hnot; try discriminate.
+    intros d Hi Hlen Hnot; try discriminate.
   - exfalso. apply Hnot. exact I.
-  - inversion Hs as [|? ? [Ha Hb] Hs']; subst. cbn [fst snd] in *.
-    inversion Hi as [|? ? Hi0 Hi']; subst. inversion Hnn as [|? ? Hn0 Hnn']; subst.
-    cbn [no_wrap] in Hw. destruct Hw as [W1 [W2 Hw]].
+  - inversion Hi as [|? ? Hi0 Hi']; subst.
     cbn [slice_positions]. rewrite s32_small by assumption.
+    destruct (Z_lt_le_dec i 0) as [Hneg|Hnn].
+    { rewrite slice_range_negative_inner by (left; exact Hneg). eauto. }
     destruct (Z_lt_le_dec i (range_len a b)) as [Hin|Hout].
-    + rewrite gsr_index_in by (try assumption; lia).
+    + destruct (get_slice_range a b i i) as [[rf rt] [|]]; [eauto|].
       destruct (IH ti (d + 1)) as [d' Hd']; try assumption; try lia.
       { intros Hrest. apply Hnot. cbn. split; [lia|exact Hrest]. }
       rewrite Hd'. eauto.
-    + pose proof (gsr_index_out a b i Ha Hb Hout W1 W2) as Ho.
-      destruct (get_slice_range a b i i) as [[rf rt] oob]. cbn in Ho. subst oob. eauto.
+    + rewrite gsr_index_out by assumption. eauto.
 Qed.
 
 Lemma idx_in_ranges_nonneg : forall r idx, idx_in_ranges r idx -> Forall (fun i => 0 <= i) idx.
@@ -335,8 +352,8 @@ Theorem slice_deref_spec : forall exts r idx,
   (* index inside the slice but the position outside the array: index_out_of_bounds *)
   (idx_in_ranges r idx -> ~ in_range exts (ranges_nth r idx) ->
      exists d, slice_deref s idx = Exc (IndexOob d)) /\
-  (* index negative or beyond the end of the slice: index_out_of_bounds *)
-  (~ idx_in_ranges r idx -> no_wrap r idx -> exists d, slice_deref s idx = Exc (IndexOob d)).
+  (* index negative or beyond the end of the slice, of whatever magnitude: index_out_of_bounds *)
+  (~ idx_in_ranges r idx -> exists d, slice_deref s idx = Exc (IndexOob d)).
 Proof.
   intros exts r idx He Hs Hi Hlr Hli s. subst s. split; [|split].
   - intros Hb Hin Hpos. rewrite slice_deref_positions by assumption.
@@ -347,7 +364,7 @@ Proof.
     apply deref_positions_spec; try assumption.
     + apply ranges_nth_s32; assumption.
     + rewrite ranges_nth_length by assumption. exact Hlr.
-  - intros Hnot Hw. unfold slice_deref.
+  - intros Hnot. unfold slice_deref.
     destruct (Forall_nonneg_dec idx) as [Hnn|Hneg].
     + rewrite pop_indices_nonneg by (apply s32_nonneg_small; assumption).
       cbn [sl_arr sl_range].
@@ -355,6 +372,26 @@ Proof.
       rewrite Hd'. eauto.
     + destruct (pop_indices_negative idx 0 Hneg) as [k [Hk1 _]]. rewrite Hk1. eauto.
 Qed.
+
+(* regression (finding range_deref:int-overflow, slice variants): through a descending slice
+   range at INT_MIN the difference INT_MIN - INT_MAX wrapped to +1 (-2147483643 - INT_MAX to 6),
+   passed the bound test and element 1 (6) of the array was returned; composing such a range
+   with [INT_MAX..INT_MAX] produced the slice [1..1] *)
+Theorem slice_deref_overflow_regression :
+  let sl a b := Some {| sl_arr := Some (mk_arr [8]); sl_range := Some [(a, b)] |} in
+  slice_deref (sl (-2147483648) (-2147483648)) [2147483647] = Exc (IndexOob 0) /\
+  slice_deref (sl (-2147483643) (-2147483648)) [2147483647] = Exc (IndexOob 0) /\
+  slice_deref (sl 2147483640 2147483647) [20] = Exc (IndexOob 0) /\
+  slice_deref (sl 0 7) [2147483647] = Exc (IndexOob 0) /\
+  slice_deref (sl 7 0) [2147483647] = Exc (IndexOob 0) /\
+  slice_slice (sl (-2147483648) (-2147483648)) (Some [(2147483647, 2147483647)]) = Exc (IndexOob (-1)) /\
+  slice_slice (sl 2147483640 2147483647) (Some [(3, 20)]) = Exc (IndexOob (-1)) /\
+  slice_range (Some [(-2147483648, -2147483648)]) (Some [(2147483647, 2147483647)]) = Exc (IndexOob (-1)) /\
+  slice_range (Some [(2147483640, 2147483647)]) (Some [(20, 3)]) = Exc (IndexOob (-1)) /\
+  (* valid accesses next to the limits are untouched *)
+  slice_deref (sl 0 7) [7] = Ok 7 /\ slice_deref (sl 7 0) [7] = Ok 0 /\
+  slice_range (Some [(2147483640, 2147483647)]) (Some [(7, 0)]) = Ok [(2147483647, 2147483640)].
+Proof. cbv zeta. repeat split; vm_compute; reflexivity. Qed.
 
 (* slices alias the underlying array: the cell reached through the slice is the cell reached
    by indexing the array itself at the denoted position *)
@@ -375,18 +412,45 @@ Proof.
   - destruct (A1 Hb Hpos) as [A _]. rewrite A. reflexivity.
 Qed.
 
+(* the same for an array the VM has created (MK_ARRAY, fix 1f9996a), without any hypothesis on
+   the product of the extents: an index inside the slice whose denoted position is inside the
+   array reaches the row-major cell of that position, which lies inside value[] and is the cell
+   indexing the array itself reaches *)
+Theorem mk_array_slice_deref_spec : forall exts dv elems r idx,
+  Forall is_s32 exts -> mk_array exts = Ok (dv, elems) ->
+  range_s32 r -> Forall is_s32 idx -> length r = length exts -> length idx = length exts ->
+  let s := Some {| sl_arr := Some dv; sl_range := Some r |} in
+  (idx_in_ranges r idx -> in_range exts (ranges_nth r idx) ->
+     slice_deref s idx = Ok (row_major exts (ranges_nth r idx)) /\
+     0 <= row_major exts (ranges_nth r idx) < elems /\
+     slice_deref s idx = array_deref (Some dv) (ranges_nth r idx)) /\
+  (idx_in_ranges r idx -> ~ in_range exts (ranges_nth r idx) ->
+     exists d, slice_deref s idx = Exc (IndexOob d)) /\
+  (~ idx_in_ranges r idx -> exists d, slice_deref s idx = Exc (IndexOob d)).
+Proof.
+  intros exts dv elems r idx Hse Hmk Hs Hi Hlr Hli s. subst s.
+  destruct (mk_array_spec exts Hse) as [_ [_ [_ Hinv]]].
+  destruct (Hinv dv elems Hmk) as [Hp [Hb [-> ->]]].
+  assert (He : Forall ext_ok exts).
+  { rewrite Forall_forall in *. intros x Hx. specialize (Hp x Hx). specialize (Hse x Hx).
+    unfold ext_ok, is_s32 in *. lia. }
+  destruct (slice_deref_spec exts r idx He Hs Hi Hlr Hli) as [S1 [S2 S3]].
+  split; [|split; assumption].
+  intros Hin Hpos. split; [apply S1; assumption|]. split; [apply row_major_bound; exact Hpos|].
+  apply slice_aliases; assumption.
+Qed.
+
 (* slice of a slice: a[r1][r2][idx] = a[r1][ r2[idx] ] -- also when both raise *)
 Theorem slice_slice_assoc : forall dv r1 r2 idx s2,
   range_s32 r1 -> range_s32 r2 -> Forall is_s32 idx -> length r1 = length r2 ->
-  inner_ok r1 r2 ->
   slice_slice (Some {| sl_arr := Some dv; sl_range := Some r1 |}) (Some r2) = Ok s2 ->
   idx_in_ranges r2 idx ->
   slice_deref (Some s2) idx =
   slice_deref (Some {| sl_arr := Some dv; sl_range := Some r1 |}) (ranges_nth r2 idx).
 Proof.
-  intros dv r1 r2 idx s2 Hs1 Hs2 Hi Hlen Hok Hss Hin.
+  intros dv r1 r2 idx s2 Hs1 Hs2 Hi Hlen Hss Hin.
   unfold slice_slice in Hss. cbn [sl_range sl_arr] in Hss.
-  destruct (compose_ranges_denotes r1 r2 Hs1 Hlen Hok) as [C1 C2].
+  destruct (compose_ranges_denotes r1 r2 Hs1 Hlen) as [C1 C2].
   assert (Hw : inner_within r1 r2).
   { destruct (compose_ranges r1 r2) as [r|e] eqn:E; [|discriminate].
     (* by contradiction with C2 *)
@@ -406,12 +470,12 @@ Qed.
 
 (* ---- hypotheses are satisfiable ---------------------------------------------------------------- *)
 Example slice_range_denotes_example :
-  is_s32 10 /\ is_s32 3 /\ compose_ok 10 5 1 /\
+  is_s32 10 /\ is_s32 3 /\
   get_slice_range 10 3 5 1 = (5, 9, false) /\          (* [10..3][5..1] = [5..9] *)
-  get_slice_range 10 3 1 8 = (9, 2, true) /\           (* 8 is not an index of [10..3] *)
+  get_slice_range 10 3 1 8 = (0, 0, true) /\           (* 8 is not an index of [10..3] *)
   get_slice_range 2 7 1 3 = (3, 5, false) /\ get_slice_range 2 7 3 1 = (5, 3, false) /\
   get_slice_range 7 2 1 3 = (6, 4, false).
-Proof. unfold compose_ok, is_s32, two31. repeat split; try lia; vm_compute; reflexivity. Qed.
+Proof. unfold is_s32, two31. repeat split; try lia; vm_compute; reflexivity. Qed.
 
 Example slice_deref_example :
   let exts := [3; 4] in
@@ -430,12 +494,11 @@ Qed.
 
 Example slice_slice_example :
   let r1 := [(1, 6)] in let r2 := [(4, 2)] in
-  range_s32 r1 /\ inner_ok r1 r2 /\ inner_within r1 r2 /\
+  range_s32 r1 /\ inner_within r1 r2 /\
   compose_ranges r1 r2 = Ok [(5, 3)] /\ idx_in_ranges r2 [1] /\
   ranges_nth [(5, 3)] [1] = ranges_nth r1 (ranges_nth r2 [1]).
 Proof.
   cbv zeta. split. { repeat constructor; unfold is_s32, two31; cbn; lia. }
-  split. { cbn. unfold compose_ok, is_s32, two31. lia. }
   split. { cbn. unfold range_len. lia. }
   repeat split; try (vm_compute; reflexivity); cbn; unfold range_len; lia.
 Qed.
